@@ -12,6 +12,7 @@ import (
 	"time"
 
 	"github.com/fsnotify/fsnotify"
+	oci "github.com/opencontainers/runtime-spec/specs-go"
 	"tags.cncf.io/container-device-interface/pkg/cdi"
 	specs "tags.cncf.io/container-device-interface/specs-go"
 )
@@ -68,10 +69,15 @@ func (watchStream) Generate(rng *rand.Rand, tier string, emit func(Case)) {
 		{"writeViaTemp", "pause", "writeViaTemp", "pause", "writeViaTemp"}, {"moveIn", "pause", "moveIn", "pause", "moveIn"},
 		{"writeInPlace", "pause", "unlink", "pause", "writeInPlace", "pause", "unlink", "pause", "writeInPlace"},
 	}
-	for _, h := range fixed {
+	for hi, h := range fixed {
 		for _, start := range []bool{true, false} {
-			for _, pacing := range []string{"burst", "yield", "sleep"} {
-				emit(Case{"op": "history", "ops": strs2any(h), "dirAtStart": start, "pacing": pacing})
+			for k, pacing := range []string{"burst", "yield", "sleep"} {
+				cs := Case{"op": "history", "ops": strs2any(h), "dirAtStart": start, "pacing": pacing}
+				if (hi+k)%3 == 0 {
+					// the cache is observed the way a container runtime uses it: through InjectDevices alone
+					cs["observe"] = "inject"
+				}
+				emit(cs)
 			}
 		}
 	}
@@ -79,6 +85,12 @@ func (watchStream) Generate(rng *rand.Rand, tier string, emit func(Case)) {
 	// whatever the scan missed, the watch must deliver
 	for _, frac := range []int{20, 50, 80} {
 		emit(Case{"op": "bigdir", "files": 1200, "percent": frac})
+	}
+	// a query falls into a slow scan of the watcher goroutine: one event (a file removed from a directory that takes
+	// long to scan); while the watcher is busy, a configured directory that was missing is created with a Spec and
+	// queried once
+	for _, frac := range []int{15, 35, 60} {
+		emit(Case{"op": "slowscan", "files": 6, "devices": 3000, "percent": frac})
 	}
 	// several configured directories: operations are tagged with the directory they act on ("op@i")
 	multiFixed := [][]string{
@@ -373,6 +385,35 @@ func (watchStream) Execute(c Case) {
 			}
 		}
 		obs["converged"], obs["scanms"] = converged, scan.Milliseconds()
+	case "slowscan":
+		late := filepath.Join(watchRoot, "late")
+		_ = os.MkdirAll(d, 0o755)
+		for i := 0; i < kindIdx(c["files"]); i++ {
+			_ = os.WriteFile(filepath.Join(d, fmt.Sprintf("big%d.json", i)), specBytesOf(fmt.Sprintf("big%d.com/class", i), "big", kindIdx(c["devices"])), 0o644)
+		}
+		victim := filepath.Join(d, "victim.json")
+		_ = os.WriteFile(victim, specBytesOf("victim.com/class", "victim", 1), 0o644)
+		t0 := time.Now()
+		_, _ = cdi.NewCache(cdi.WithSpecDirs(late, d), cdi.WithAutoRefresh(false))
+		scan := time.Since(t0)
+		cache, _ := cdi.NewCache(cdi.WithSpecDirs(late, d), cdi.WithAutoRefresh(true))
+		defer func() { _ = cache.Configure(cdi.WithAutoRefresh(false)) }()
+		_ = os.Remove(victim) // exactly one event
+		time.Sleep(scan * time.Duration(kindIdx(c["percent"])) / 100)
+		_ = os.MkdirAll(late, 0o755)
+		_ = os.WriteFile(filepath.Join(late, "fresh.json"), specBytesOf("late.com/class", "fresh", 1), 0o644)
+		_ = cache.ListDevices() // one query: re-adds the directory and refreshes
+		fresh, _ := cdi.NewCache(cdi.WithSpecDirs(late, d), cdi.WithAutoRefresh(false))
+		want := len(fresh.ListDevices())
+		converged := false
+		time.Sleep(2 * scan) // whatever the watcher was doing is over
+		for deadline := time.Now().Add(8 * time.Second); time.Now().Before(deadline); time.Sleep(50 * time.Millisecond) {
+			if len(cache.ListDevices()) == want && cache.GetDevice("late.com/class=dev0") != nil && cache.GetDevice("victim.com/class=dev0") == nil {
+				converged = true
+				break
+			}
+		}
+		obs["converged"], obs["scanms"] = converged, scan.Milliseconds()
 	case "history":
 		nd := kindIdx(c["ndirs"])
 		dirs := []string{d}
@@ -439,8 +480,33 @@ func (watchStream) Execute(c Case) {
 		converged := false
 		var got map[string]any
 		polls := 0
+		image := cacheImage
+		if ob, _ := c["observe"].(string); ob == "inject" {
+			// every name the history can define (and one it cannot), each requested alone through InjectDevices; no
+			// other query touches the cache under observation
+			names := []string{"unknown.com/class=dev0"}
+			for _, q := range fresh.ListDevices() {
+				names = append(names, q)
+			}
+			for _, k := range []string{"vendor.com/class", "other.com/class", "moved.com/class", "linked.com/class"} {
+				for i := 0; i < 3; i++ {
+					names = append(names, fmt.Sprintf("%s=dev%d", k, i))
+				}
+			}
+			image = func(cc *cdi.Cache) map[string]any {
+				img := map[string]any{}
+				for _, q := range names {
+					sp := &oci.Spec{}
+					_, err := cc.InjectDevices(sp, q)
+					b, _ := json.Marshal(sp)
+					img[q] = fmt.Sprint(err != nil, string(b))
+				}
+				return img
+			}
+			want = image(fresh)
+		}
 		for {
-			got = cacheImage(cache)
+			got = image(cache)
 			polls++
 			if reflect.DeepEqual(got, want) {
 				converged = true
